@@ -938,6 +938,7 @@ class HfProtocol(utils.EventEmitter):
             self.supported_ag_call_hold_operations = [
                 CallHoldOperation(operation.decode())
                 for operation in response.parameters[0]
+                if operation  # "()" is an empty list
             ]
 
         # 4.2.1.4 HF Indicators
@@ -963,6 +964,8 @@ class HfProtocol(utils.EventEmitter):
 
             logger.info("supported HF indicators:")
             for indicator in response.parameters[0]:
+                if not indicator:
+                    continue  # "()" is an empty list
                 indicator = HfIndicator(int(indicator))
                 logger.info(f"  - {indicator.name}")
                 if indicator in self.hf_indicators:
